@@ -466,7 +466,16 @@ def make_machine(ctx):
             if ctx.shrink_expired():
                 return
             self.steps.append(step)
-            fail = self.it.do(step, len(self.steps) - 1)
+            try:
+                # the operation itself is cut after 5 s (no result); observing
+                # every value afterwards takes milliseconds - if that does not
+                # come back either (a value left half-updated loops in str /
+                # hash), the step is reported instead of spinning for ever
+                with watchdog(ctx.case_timeout_s):
+                    fail = self.it.do(step, len(self.steps) - 1)
+            except Hang as e:
+                fail = "hang: step #%d %r: observing the values afterwards " \
+                       "did not finish: %s" % (len(self.steps) - 1, step, e)
             if step["do"] == "op":
                 ctx.classes["op/" + step["op"].split("/")[0]] += 1
             if fail:
